@@ -9,6 +9,27 @@ CHECKS = {
  "C10": dict(cat="model_checking", tech="explicit exploration of every interleaving of whole operations of 2-3 threads (original + copies) with a footprint-isolation oracle on reflective memory snapshots, plus exhaustive (constructor x configuration x operation) structural/behavioural comparison",
    text="Every copy constructor in the catalogue (rlwe/bgv/ckks/rgsw evaluators, encoders, encryptors, decryptors, key sets, basis extender, ring level views, 13 multiparty protocols, deep copies of ciphertexts/keys) x every configuration of the original x with/without P x every operation: reflective structural comparison original vs copy, behavioural equality under the same seed, independence by snapshot diff; for copies documented as concurrently usable every op-granular interleaving of 2 (quick) / 3 threads or 2 ops (thorough) is executed with the oracle that no operation changes memory reachable from another thread's object and that results equal the solo runs.",
    note="Reduction lemma (DESIGN §2 E3): no synchronisation in the library, so footprint isolation at operation granularity implies race freedom; writes restoring the old value are invisible to snapshot diffs; rlwe.Scale internals treated as immutable values; WithKey/WithPRNG copies (documented as sharing buffers) are excluded from the concurrency oracle.", ref="§6 C10"),
+ "C05": dict(cat="model_checking", tech="explicit-state enumeration of every straight-line program (register machine) up to the length bound on the real BGV/BFV evaluator, compared after every instruction with a Z_t reference model",
+   text="Register machine over the real bgv.Evaluator: every program core x wide and wide x core (1384-instruction alphabet: opcode x operand kind x boundary values x destination form) plus the MulRelin/Rescale spine to level 0 with one deviation (quick); wide x wide and core^3 (thorough), on 5-8 tiny parameter sets (t = 17 smaller plaintext ring, 97, 65537, 30-bit, 60-bit; BGV and scale-invariant BFV; with/without P). After every instruction decrypt+decode with the recorded scale must equal the model vector exactly mod t and level/degree/scale must be the documented ones; documented failure conditions must be errors.",
+   note="Programs whose analytic worst-case noise exceeds the budget are counted out of scope; decryption through rlwe.Decryptor (C03 owns it); length >3 only along the spine.", ref="§6 C05, §11"),
+ "C06": dict(cat="model_checking", tech="explicit-state enumeration of every straight-line CKKS program up to the length bound on the real evaluator, exact metadata model and model-propagated error bound checked after every instruction",
+   text="Register machine over the real ckks.Evaluator: 212 instructions (15 opcodes x operand kinds x destination forms) x 5 register files, all length-2 programs + rescale spine with one deviation (quick), length 3 on reduced alphabets (thorough), on 12-16 configurations (standard / conjugate-invariant, LogN 4-5, sparse packing, scales 2^30/2^45/2^80 = two primes per rescale, 0-2 auxiliary primes). Scale/level/degree/LogDimensions compared exactly with a rational model; values against a 320-bit complex model within an error bound propagated from declared noise supports (x16 safety factor).",
+   note="Error bounds are sound over-estimates, not tuned thresholds; no lower bound on noise (C03); evaluator rebuilt after a panic.", ref="§6 C06, §11"),
+ "C07": dict(cat="exploration", tech="bounded-exhaustive enumeration of encode/decode round trips over message boundary alphabets, whole Z_t on single slots, all vector lengths, levels, scales and precisions against an independent canonical-embedding reference",
+   text="BGV: t in {17,97,193,65537,30-bit,60-bit}, plaintext ring gaps 1/2/4, batched and coefficient encodings, Encode/Decode/EncodeRingT/DecodeRingT/RingT2Q/RingQ2T/Embed, all levels, scales coprime to t, lengths 0..slots, boundary values incl. 2^63, MinInt64; all single-slot vectors over Z_t and all vectors over a 3-value alphabet up to 8 (quick) / 10 slots; slot-wise product of encodings. CKKS: LogN 4-6, both ring types, every LogDimensions, precisions 53..256, slot and coefficient domain, scales 2^20..2^120, against an O(N^2) big.Float canonical embedding; DecodePublic rounding; product of encodings.",
+   note="CKKS error bound N/scale + N 2^-prec |v| c with safety factor 16; quick is a pairwise cut of the CKKS product, thorough the full product.", ref="§6 C07, §11"),
+ "C11": dict(cat="exploration", tech="exhaustive enumeration of the Galois group algebra and of every rotation / inner-sum argument on tiny rings with keys generated from exactly the advertised lists",
+   text="Algebra: every a,b in [-2n,2n] and extreme k for NthRoot 32..128, both ring types (GaloisElement composition, inverse, discrete log on the whole subgroup). Ciphertext semantics: BGV two-row, CKKS standard and conjugate-invariant, full and sparse packing, 0-2 auxiliary primes, every k in [-slots-1, slots+1] and huge k through plain and hoisted rotations; InnerSum/RotateAndAdd/Replicate/PartialTracesSum/Average/Trace for all admissible (batch, n) and depths with keys from exactly the advertised Galois lists (a missing-key error is a violation); ramps as slot vectors.",
+   note="GaloisElementsForExpand/Pack lists are not exercised (no ring-packing circuit here; C04 covers Expand/Pack functionally).", ref="§6 C11, §11"),
+ "C14": dict(cat="model_checking", tech="explicit-state search of the share merge lattice (every aggregation order and tree shape, with serialization hops) on the real protocols, functional oracle under the ideal secret",
+   text="CPK, RLK (both rounds), GAL, EVK protocols x evaluation-key parameters x chains with unequal prime sizes: the full merge lattice for N<=4 (quick) / 5 parties (left-deep orders under a cap for 6..8), with swap / serialization / output-aliasing variants; equal partitions must hold bit-identical shares, all terminal keys identical, the key must act as a key of sum(s_i) (independent phase computation, noise <= N x single-party worst case), CRS replay identical, mismatched shares rejected.",
+   note="Standard ring only; serialization hop via MarshalBinary/UnmarshalBinary; RLK noise bound quadratic in N.", ref="§6 C14, §11"),
+ "C15": dict(cat="model_checking", tech="exhaustive enumeration of (t, N), every active subset in every listing order and every setup aggregation order on the real Thresholdizer/Combiner against a math/big Shamir reference",
+   text="All 1<=t<=N<=5 (quick) / 6 (thorough), four public-point families (small, >2^32, >2^63, mixed), setup shares aggregated in all orders for N<=4, every t-subset in every order (sum of additive shares == sum of all secrets residue by residue, independent Lagrange coefficients), every smaller subset refused with an error, downstream collective decryption equals the N-party one.",
+   note="Assumes public points distinct and non-zero modulo every prime of QP (Shamir's own precondition); supersets recorded, not judged.", ref="§6 C15, §11"),
+ "C16": dict(cat="model_checking", tech="explicit-state search of the share merge lattice for key switching, share conversion, refresh and masked transform on the real protocols, with exact/precision message oracles and a smudging-noise lower bound",
+   text="KeySwitch (to shared and to zero key), PublicKeySwitch, mpbgv/mpckks EncToShare->ShareToEnc, Refresh, MaskedTransform (nil/identity/linear/permutation, decode/encode flags): parties 1..3 (quick) / 4 full lattice, 5..8 capped, all input levels from the protocol minimum x output levels, flooding sigma in {default, 2^10, 2^20}, BGV t in {97,65537}, several CKKS slot counts/scales. Decryption under the target key == message (exact / within computed eps), additive shares sum to the message, refresh at the requested level and scale, transform == f(message), per-share smudging noise non-zero with pooled sigma >= requested/2 and <= truncation bound.",
+   note="paramsIn == paramsOut only; lambda=128; standard ring only.", ref="§6 C16, §11"),
 }
 NOT_YET = {}
 def main():
